@@ -200,6 +200,8 @@ type runOpts struct {
 	ntune   int // tuning combinations per (request, planner); 0 = all
 	maxReq  int // requests per scenario (random sample beyond that); 0 = all
 	only    [][2]string // replay: restrict to these (object, relation) requests
+	timing  int         // requests per scenario that are also run under both arrival orders of the
+	// two concurrent reads of the weight-2 / recursive strategies (timing-only datastore wrapper)
 }
 
 type cfgOut struct {
@@ -413,6 +415,35 @@ func runScenario(ctx context.Context, w *rec.Writer, r *rec.Rand, g *rig, s *sce
 			}
 		}
 	}
+	// arrival orders: the object-side read and the user-side read of the two-sided strategies run
+	// concurrently; a pass-through datastore delays one side or the other (results unchanged)
+	if ro.timing > 0 {
+		tds := &timingDS{OpenFGADatastore: env.DS}
+		tenv := *env
+		tenv.DS = tds
+		nt := 0
+		for _, q := range withChoice {
+			if nt >= ro.timing {
+				break
+			}
+			nt++
+			for _, p := range []int{2, 1} { // recursive, weight2
+				for mode := 1; mode <= 2; mode++ {
+					tds.Arm(mode)
+					out := checkDL(ctx, &tenv, g.chain(p, defaultTuning).r, q.obj, q.rel, q.sub)
+					tds.Arm(0)
+					w.Stat("checks", 1)
+					w.Stat("checks_arrival_order", 1)
+					tag := []string{"", "user-side-first", "object-side-first"}[mode]
+					if !q.outs[p][out] {
+						q.detail = append(q.detail, cfgOut{plannerNames[p], "arrival-order=" + tag, outNames[out]})
+					}
+					q.outs[p][out] = true
+				}
+			}
+		}
+		w.Stat("arrival_order_holds", tds.held)
+	}
 	for _, p := range g.planners {
 		for k, v := range p.seen() {
 			w.Stat("planner_"+p.name+"_selected_"+k, v)
@@ -454,6 +485,9 @@ func runScenario(ctx context.Context, w *rec.Writer, r *rec.Rand, g *rig, s *sce
 		svs = append(svs, rec.L(in.Subject(sub), rec.L(pxs...), rec.L(res[si]...)))
 	}
 	desc := map[string]any{"kind": 1, "scenario": s, "subjects": subjects, "text": s.String()}
+	if len(ro.only) > 0 {
+		desc["only"] = ro.only
+	}
 	if len(interesting) > 0 {
 		if len(interesting) > 6 {
 			interesting = interesting[:6]
@@ -488,9 +522,9 @@ func main() {
 	w := rec.NewWriter(o.Out)
 	defer w.Close()
 	ctx := context.Background()
-	ro := runOpts{tier: o.Tier, verbose: os.Getenv("C02_VERBOSE") != "", full: 10, fullNo: 2, ntune: 4, maxReq: 120}
+	ro := runOpts{tier: o.Tier, verbose: os.Getenv("C02_VERBOSE") != "", full: 10, fullNo: 2, ntune: 4, maxReq: 120, timing: 3}
 	if o.Tier == "thorough" {
-		ro = runOpts{tier: o.Tier, verbose: ro.verbose, full: 30, fullNo: 5, ntune: 0, maxReq: 500}
+		ro = runOpts{tier: o.Tier, verbose: ro.verbose, full: 30, fullNo: 5, ntune: 0, maxReq: 500, timing: 10}
 	}
 	g := newRig(o.Seed, maxDepth)
 	defer g.close()
@@ -509,7 +543,7 @@ func main() {
 		defer f.Close()
 		sc := bufio.NewScanner(f)
 		sc.Buffer(make([]byte, 1<<20), 1<<26)
-		ro.full, ro.fullNo, ro.ntune, ro.maxReq = 0, 1<<30, 0, 0
+		ro.full, ro.fullNo, ro.ntune, ro.maxReq, ro.timing = 0, 1<<30, 0, 0, 1<<30
 		for sc.Scan() {
 			var d replayDesc
 			if json.Unmarshal(sc.Bytes(), &d) != nil {
@@ -570,6 +604,13 @@ func main() {
 			// (models that name the direct assignment twice make the pipeline engine hang — known
 			// finding, replayed from corpus/C02-witnesses.jsonl on every run — and are left out here)
 			runLO(ctx, w, rr, g, s, nil)
+		}
+		for k := 0; k < 2; k++ {
+			// first level of the recursive strategy, both arrival orders
+			fs, fobj, frel := scen.GenerateC02FirstLevel(rr)
+			ro1 := ro
+			ro1.only, ro1.full, ro1.fullNo, ro1.timing = [][2]string{{fobj, frel}}, 1, 1, 1
+			runScenario(ctx, w, rr, g, fs, []string{"user:a"}, ro1)
 		}
 		for k := 0; k < 12; k++ {
 			runFP(w, genFP(rr))
